@@ -111,6 +111,18 @@ func (w *faultWriter) Write(p []byte) (int, error) {
 	return len(p), nil
 }
 
+// messages encoded between a MarshalText call and the moment its result is read: shorter, as long, longer
+var wireNeighbours = func() []*sse.Message {
+	var ms []*sse.Message
+	for _, n := range []int{0, 1, 7, 64, 700, 5000} {
+		m := &sse.Message{ID: sse.ID("neighbour"), Type: sse.Type("n")}
+		m.AppendData(strings.Repeat("N", n))
+		m.AppendComment("c")
+		ms = append(ms, m)
+	}
+	return ms
+}()
+
 // encoding of a message through all three routes; a disagreement is reported as a marker
 func wireOf(m *sse.Message) (out val.V) {
 	defer func() {
@@ -120,6 +132,15 @@ func wireOf(m *sse.Message) (out val.V) {
 	}()
 	s := m.String()
 	b, err := m.MarshalText()
+	// the caller keeps what MarshalText returned while other messages (and this one) are encoded through every
+	// route: the bytes it holds are its own and must not change
+	for _, other := range wireNeighbours {
+		ob, _ := other.MarshalText()
+		_ = other.String()
+		_, _ = other.WriteTo(io.Discard)
+		_ = append(ob[:len(ob):cap(ob)], "tail"...)
+	}
+	_, _ = m.MarshalText()
 	var buf bytes.Buffer
 	n, err2 := m.WriteTo(&buf)
 	if err != nil || err2 != nil || string(b) != s || buf.String() != s || int(n) != len(s) {
